@@ -159,6 +159,12 @@ pub fn random(ctx: &mut Ctx) {
     for case in 0..cases {
         let mut n = rng.range(2, 6) as u32;
         let mref = setup::<Zbdd>(1 << 16, 1 << rng.range(2, 10), if rng.chance(1, 3) { 4 } else { 1 }, n);
+        // every split depth: 0 (hand-over to the sequential recursor at the root), 1, 2, MAX
+        let depth = *rng.pick(&[0u32, 1, 2, u32::MAX]);
+        mref.with_manager_shared(|m| {
+            use oxidd::{HasWorkers, WorkerPool};
+            m.workers().set_split_depth(Some(depth))
+        });
         let order = rng.perm(n as usize);
         set_order(&mref, &order);
         let mut fs: Vec<(Z, Tt)> = (0..5)
@@ -202,7 +208,7 @@ pub fn random(ctx: &mut Ctx) {
             let rt = interp_tt::<Zbdd>(&r);
             ctx.eval();
             if rt != want {
-                ctx.violation(&format!("zbdd:random:{name}:wrong-family"), format!("case {case} n={n} order {:?}: {name}({ft}, {gt}|{v}) = {rt} want {want}", current_order(&mref)));
+                ctx.violation(&format!("zbdd:random:{name}:wrong-family"), format!("case {case} n={n} split depth {depth} order {:?}: {name}({ft}, {gt}|{v}) = {rt} want {want}", current_order(&mref)));
             } else if !want.is_zero() {
                 ctx.distinct((name, &want));
             }
@@ -219,5 +225,5 @@ pub fn random(ctx: &mut Ctx) {
             }
         }
     }
-    ctx.sample(|| "random: 2..8 variables, random order, 40 steps of union/intsec/diff/subset0/subset1/change/xor with add_vars in between; family view, interp and eval compared".into());
+    ctx.sample(|| "random: 2..8 variables, random order, 1/4 workers with split depth 0/1/2/MAX, 40 steps of union/intsec/diff/subset0/subset1/change/xor with add_vars in between; family view, interp and eval compared".into());
 }
